@@ -136,6 +136,10 @@ def uninstall_contracts(ctx):
     ctx.engine.opaque.pop(RES + "_solve", None)
 
 
+PATH_SELECT = [0]   # which returning path of simulate() the Step objects of the running obligation look at
+LAST_NPATHS = [1]   # largest number of returning paths met while the obligation ran
+
+
 class Step:
     """one symbolic time step i -> i+1 of simulate(), with the callee contracts in place"""
 
@@ -146,9 +150,13 @@ class Step:
         finally:
             uninstall_contracts(ctx)
         rets = [o for o in self.outs if o.kind == "return"]
-        if len(rets) != 1:
-            raise sx.OutOfSubset(f"simulate: {len(rets)} returning paths of {len(self.outs)}")
-        self.o = o = rets[0]
+        if len(rets) == 0:
+            raise sx.OutOfSubset(f"simulate: no returning path of {len(self.outs)}")
+        # several returning paths (e.g. a buffer whose dtype depends on the size of the run): every obligation has to hold on each
+        # of them; the runner (oblig._run_one) repeats the obligation with PATH_SELECT = 1, 2, ... while it stays proved
+        LAST_NPATHS[0] = max(LAST_NPATHS[0], len(rets))
+        self.o = o = rets[min(PATH_SELECT[0], len(rets) - 1)]
+        self.npaths = len(rets)
         g = o.heap["ghost"]
         loops = [L for L in g.get("loops", []) if "arrays" in L]
         if len(loops) != 1 or list(loops[0]["arrays"]) != ["pseudopressure"]:
